@@ -463,9 +463,9 @@ def run(chk, replay=None):
     if replay:
         rp = json.load(open(replay)); chk.notes.append("replay: re-running the generator stage that produced " + rp.get("signature", "?"))
     times = {}
-    for nm, f, n in (("grid", grid_cases, 1500 if big else 250), ("quantile", quantile_cases, 400 if big else 60),
-                     ("sample", sample_cases, 300 if big else 40), ("trainable", trainable_cases, 400 if big else 80),
-                     ("default-delay", delay_cases, 120 if big else 24), ("estimator", gmm_cases, 120 if big else 12)):
+    for nm, f, n in (("grid", grid_cases, 1000 if big else 160), ("quantile", quantile_cases, 400 if big else 60),
+                     ("sample", sample_cases, 250 if big else 40), ("trainable", trainable_cases, 400 if big else 80),
+                     ("default-delay", delay_cases, 120 if big else 24), ("estimator", gmm_cases, 80 if big else 10)):
         t = time.time(); f(chk, n); times[nm] = round(time.time() - t, 1)
     chk.extra["stage_wall_s"] = times
     chk.extra["rule"] = ("seeded generation (VERIF_SEED): 2-3 component normal mixtures (incl. narrow well-separated ones whose float32 CDF "
